@@ -699,6 +699,63 @@ impl World {
         };
         let mut fails: Vec<(&str, String)> = vec![];
         let in_conf = m.in_conflict();
+        // C05 / C01: "depends only on the set of recorded revisions": the committed part of every tree is exactly
+        // what the change records of the APPLIED blocks say, whatever the order in which the blocks were applied
+        // (reload, refresh, time travel walk the graph in different orders).  Computed from the bytes in storage.
+        {
+            let items = self.reps[r].be.snapshot();
+            let st = m.verif_delta_status();
+            let mut expect: BTreeMap<String, BTreeSet<(String, Option<String>)>> = BTreeMap::new();
+            let mut complete = true;
+            for (id, s) in &st {
+                if *s != "applied" {
+                    continue;
+                }
+                let bytes = match items.get(&format!("{}.delta", id)) {
+                    Some(b) if digest_bytes(b) == id.splitn(2, '-').nth(1).unwrap_or("") => b,
+                    _ => {
+                        complete = false; // damaged under the live replica: nothing to compare with
+                        continue;
+                    }
+                };
+                let v: Value = match serde_json::from_slice(bytes) {
+                    Ok(v) => v,
+                    Err(_) => {
+                        complete = false;
+                        continue;
+                    }
+                };
+                for rec in v.get("c").and_then(|c| c.as_array()).cloned().unwrap_or_default() {
+                    let a: Vec<String> = rec.as_array().map(|x| x.iter().filter_map(|y| y.as_str().map(|z| z.to_string())).collect()).unwrap_or_default();
+                    match a.len() {
+                        2 => {
+                            expect.entry(a[0].clone()).or_default().insert((format!("1-{}", a[1]), None));
+                        }
+                        3 => {
+                            let pidx: u64 = a[1].split('-').next().and_then(|i| i.parse().ok()).unwrap_or(0);
+                            let rev = format!("{}-{}_{}", pidx + 1, a[2], &digest_string(&a[1])[..7]);
+                            expect.entry(a[0].clone()).or_default().insert((rev, Some(a[1].clone())));
+                        }
+                        _ => {}
+                    }
+                }
+            }
+            if complete {
+                let mut objs: BTreeSet<String> = m.get_all_objects();
+                objs.extend(expect.keys().cloned());
+                for u in objs {
+                    let got: BTreeSet<(String, Option<String>)> = m.verif_tree_dump(&u).unwrap_or_default().into_iter().filter(|(_, _, stg)| !*stg).map(|(r, p, _)| (r, p)).collect();
+                    let want = expect.get(&u).cloned().unwrap_or_default();
+                    if got != want {
+                        let missing: Vec<_> = want.difference(&got).take(2).cloned().collect();
+                        let extra: Vec<_> = got.difference(&want).take(2).cloned().collect();
+                        let w = format!("the committed revisions recorded for {} are not those of the applied blocks: missing {:?}, not in any applied block {:?}", u, missing, extra);
+                        fails.push(("C05", w.clone()));
+                        fails.push(("C01", w));
+                    }
+                }
+            }
+        }
         for u in m.get_all_objects() {
             let dump = m.verif_tree_dump(&u).unwrap_or_default();
             // C19: the identifier of a revision with a parent is index(parent)+1, its own digest, and the first seven
@@ -810,7 +867,16 @@ impl World {
         }
         match kind {
             "update" => self.op_update(r, &op["doc"]),
-            "commit" => self.op_commit(r, op.get("info").cloned().unwrap_or(Value::Null)),
+            "commit" => {
+                self.op_commit(r, op.get("info").cloned().unwrap_or(Value::Null));
+                // C12: straight after a commit the replica's storage holds nothing it has not applied (unless it
+                // holds blocks back): a reload / refresh of THIS replica must not change what it shows
+                match op.get("then").and_then(|x| x.as_str()) {
+                    Some("reload") => self.op_reload(r),
+                    Some("refresh") => self.op_refresh(r),
+                    _ => {}
+                }
+            }
             "meld" => self.op_meld(r, op["from"].as_u64().unwrap() as usize % self.reps.len()),
             "refresh" => self.op_refresh(r),
             "reload" => self.op_reload(r),
@@ -2266,6 +2332,10 @@ impl World {
                 }
                 Ok(m) => {
                     let got = obs_doc(&m);
+                    // C13 on the replica just opened: whatever is missing or damaged, what it APPLIED is ancestor-closed
+                    if let Some(w) = graph_not_closed(&m) {
+                        fails.push(("C13", format!("a replica opened on partial storage ({}): {}", desc.join(", "), w)));
+                    }
                     if got != expect {
                         fails.push(("C10", format!("opening damaged storage ({}) yields neither an error nor the state of the intact items: {}", desc.join(", "), first_diff(&expect, &got))));
                     } else {
@@ -2955,6 +3025,32 @@ fn strip_blocked(v: &Value) -> Value {
     v
 }
 
+/// C13 on one replica: an applied block whose parent is not applied, or whose heads are not the applied blocks
+/// without applied children
+fn graph_not_closed(m: &Melda) -> Option<String> {
+    let st = m.verif_delta_status();
+    let applied: BTreeSet<String> = st.iter().filter(|(_, s)| **s == "applied").map(|(k, _)| k.clone()).collect();
+    let mut named = BTreeSet::new();
+    for id in &applied {
+        let d = match m.get_delta(&DeltaId::from(id).ok()?) {
+            Ok(Some(d)) => d,
+            _ => return Some(format!("applied block {} cannot be retrieved", id)),
+        };
+        for p in d.parents.unwrap_or_default() {
+            if !applied.contains(&p.to_string()) {
+                return Some(format!("applied block {} has a parent {} that is not applied", id, p));
+            }
+            named.insert(p.to_string());
+        }
+    }
+    let heads: BTreeSet<String> = applied.difference(&named).cloned().collect();
+    let anchors: BTreeSet<String> = m.get_anchors().iter().map(|a| a.to_string()).collect();
+    if heads != anchors {
+        return Some(format!("anchors {:?} are not the applied blocks without applied children {:?}", anchors, heads));
+    }
+    None
+}
+
 /// no applied block without its ancestors, packs and objects; reads succeed
 fn check_no_mixture(items: &Items) -> Option<String> {
     let m = match fresh_on(items) {
@@ -3080,7 +3176,11 @@ pub fn gen_op(w: &World, g: &mut Rng, sim_faults: bool) -> Value {
             let doc = if base.as_object().map(|o| o.is_empty()).unwrap_or(true) { random_doc(g) } else { mutate_doc(g, &base) };
             json!({"op": "update", "r": r, "doc": doc})
         }
-        34..=49 => json!({"op": "commit", "r": r, "info": info(g)}),
+        34..=49 => match g.below(6) {
+            0 => json!({"op": "commit", "r": r, "info": info(g), "then": "reload"}),
+            1 => json!({"op": "commit", "r": r, "info": info(g), "then": "refresh"}),
+            _ => json!({"op": "commit", "r": r, "info": info(g)}),
+        },
         50..=59 => {
             if g.chance(1, 20) {
                 let name = *g.pick(&["LOCK", "notes.txt", "README", "x.delta.sign", "ab.pack.bak", "attachment.bin"]);
